@@ -77,11 +77,13 @@ def roundtrip(rk: gkdi.RootKey, mode: str, sid: str, pt: bytes, ft: int, api: st
                         if via != pt:
                             return ("seed-cache.roundtrip.differs", {"len": len(pt), "got_len": len(via)}), blob
                     else:
-                        blob = bytes(run(prot(pt, sid, server="dc", username="u", password="p", auth_protocol="ntlm")))
+                        blob = bytes(run(prot(pt, sid, server="dc", username="u", password="p", auth_protocol="ntlm", cache=cache)))
             else:
+                # the caller's cache (root key loaded) is handed to protect as well: no root key is named, so protect must ask the DC,
+                # and whatever it leaves in the cache must not disturb the unprotect that follows on the same cache object
                 dc = refdc.DC([rk], now=gkdi.interval(ft), authorised=False)
                 with transport.network(dc), secctx.scripted_client(_ctx):
-                    blob = bytes(run(prot(pt, sid, server="dc", username="u", password="p", auth_protocol="ntlm")))
+                    blob = bytes(run(prot(pt, sid, server="dc", username="u", password="p", auth_protocol="ntlm", cache=cache)))
         except Exception as e:  # noqa: BLE001
             return (f"protect.exc.{type(e).__name__}", {"exc": repr(e)}), None
         try:
